@@ -74,6 +74,27 @@ QUAD = {
         }, 'no_error': True},
 }
 
+# ray_plane: H(k) = component k (in the plane's frame, columns of mat) of the hit point relative to the plane origin
+PLANE_DEFS = {
+    'HP': 'lambda j: pnt[j] + result*vec[j] - pos[j]',
+    'H': 'lambda k: mat[k]*HP(0) + mat[3+k]*HP(1) + mat[6+k]*HP(2)',
+    'LZ': 'mat[2]*vec[0] + mat[5]*vec[1] + mat[8]*vec[2]',                                   # ray direction along the plane normal
+    'PZ': 'mat[2]*(pnt[0]-pos[0]) + mat[5]*(pnt[1]-pos[1]) + mat[8]*(pnt[2]-pos[2])',          # height of the ray origin above the plane
+    'absr': 'lambda v: v if v >= 0 else -v',
+}
+PLANE = {
+    '__auto_inline__': True, '__no_merge__': True, '__defs__': PLANE_DEFS,
+    'ray_plane': {
+        'params': {'pos': {'n': 3}, 'mat': {'n': 9}, 'size': {'n': 3}, 'pnt': {'n': 3}, 'vec': {'n': 3}, 'normal': {'null': True}},
+        'ensures': {
+            'minus_one_or_nonneg': 'result == -1 or result >= 0',
+            'hit_point_lies_in_the_plane': 'implies(result >= 0, H(2) == 0)',
+            'hit_point_inside_the_rendered_rectangle': 'implies(result >= 0, (size[0] <= 0 or absr(H(0)) <= size[0]) and (size[1] <= 0 or absr(H(1)) <= size[1]))',
+            'only_rays_facing_the_front_side_hit': 'implies(result >= 0, LZ < 0 and PZ >= 0)',
+            'a_front_facing_ray_from_above_over_an_infinite_plane_hits': 'implies(LZ <= -dbl(1e-15) and PZ >= 0 and size[0] <= 0 and size[1] <= 0, result >= 0)',
+        }, 'no_error': True},
+}
+
 ELIMC = {
     '__auto_inline__': True,
     'ray_eliminate': {
